@@ -608,6 +608,8 @@ class Gen(object):
     def list_literal(self, items):
         if not items:
             return SList(z3.K(I, z3.RealVal(0)), z3.IntVal(0), 'real')
+        if isinstance(items[0], SList) and any(it.et != items[0].et for it in items if isinstance(it, SList)):
+            return STuple(items)          # heterogeneous list literal, e.g. `return [ctrlpts, weights]`: fixed arity
         if isinstance(items[0], SList):
             et = ('list', items[0].et)
             arr = z3.K(I, items[0].arr)
